@@ -98,7 +98,11 @@ fn main() {
             let replay_dir = PathBuf::from(std::env::var("VP_REPLAY_DIR").unwrap_or_else(|_| "/verif/replays".into()));
             let eng = Engine::new(RunCfg { property: id.clone(), engine: "E1".into(), tier: args.tier, seed: args.seed, shards, replay_dir });
             (def.run)(&eng, &args);
-            let code = eng.finish(&args.out, def.rule, def.assumptions, def.level);
+            let mut notes: Vec<&str> = def.assumptions.to_vec();
+            if id != "C10" {
+                notes.push(common::AUTO_VERBOSITY_NOTE);
+            }
+            let code = eng.finish(&args.out, def.rule, &notes, def.level);
             vpmodel::run::cleanup_root();
             std::process::exit(code);
         }
